@@ -7,6 +7,7 @@
 // ASSUME: PerThreadStorage runs over the harness environment C15_env.h (512-byte per-thread blocks from calloc; real PerThreadStorage.cpp)
 // OB: ob_ring_T2 tier=quick unwind=90 timeout=1500 solver=cadical bounds="ring detector: T=2, <=2 report rounds per thread, <=2 initial work units + <=1 created, 44 steps" desc="soundness: termination is never observed while the pool is non-empty or a thread holds work or has an unreported didWork"
 // OB: ob_ring_live_T2 tier=quick unwind=90 timeout=1500 solver=cadical bounds="ring detector: T=2, arbitrary prefix of <=2 rounds per thread, then round-robin idle reports: termination within 3*T+2 reports per thread" desc="bounded liveness once everybody is idle; re-arming for a second loop with a different thread count"
+// OB: ob_ring_deep_T2 tier=thorough unwind=100 timeout=3600 solver=cadical mem_gb=12 bounds="ring detector: T=2, master <=4 report rounds, other thread <=3 (the shortest histories in which the unchanged detector can announce: both initial black marks are flushed, then two clean rounds), <=1 initial work unit + <=2 created, 84 steps" desc="soundness on histories long enough to reach an announcement: termination is never observed while the pool is non-empty or a thread holds work or has an unreported didWork"
 // OB: ob_tree_T2 tier=attic unwind=90 timeout=1500 solver=cadical bounds="tree detector: T=2, <=2 report rounds per thread, 56 steps" desc="soundness of the tree detector"
 // OB: ob_tree_live_T2 tier=attic unwind=90 timeout=1500 solver=cadical bounds="tree detector: T=2, prefix <=2 rounds per thread then round-robin idle reports: termination within 4*depth+6 reports per thread" desc="bounded liveness of the tree detector"
 // OB: ob_ring_T3 tier=thorough unwind=90 timeout=3600 solver=cadical bounds="ring detector: T=3, <=2 rounds per thread, 66 steps" desc="soundness, three threads"
@@ -19,6 +20,7 @@ galois::substrate::TerminationDetection::~TerminationDetection(void) {}
 
 extern "C" void vf_sched_ring(unsigned n, unsigned steps);
 extern "C" void vf_sched_ring2(unsigned n, unsigned steps);
+extern "C" void vf_sched_ringdeep(unsigned n, unsigned steps);
 extern "C" void vf_sched_tree(unsigned n, unsigned steps);
 extern "C" void vf_sched_tree2(unsigned n, unsigned steps);
 extern "C" void vf_call_ringreport(unsigned t);
@@ -72,9 +74,10 @@ inline void worker(D* d, unsigned tid, unsigned rounds) {
 } // namespace
 
 #define ENV(name) extern "C" void vf_tinit_##name(unsigned tid) { tls(tid); }
-ENV(ring) ENV(ring2) ENV(tree) ENV(tree2)
+ENV(ring) ENV(ring2) ENV(ringdeep) ENV(tree) ENV(tree2)
 extern "C" void vf_thread_ring(unsigned tid) { worker(vfg_ring, tid, 2); }
 extern "C" void vf_thread_ring2(unsigned tid) { worker(vfg_ring, tid, 2); }
+extern "C" void vf_thread_ringdeep(unsigned tid) { worker(vfg_ring, tid, tid == 0 ? 4 : 3); }
 extern "C" void vf_thread_tree(unsigned tid) { worker(vfg_tree, tid, 2); }
 extern "C" void vf_thread_tree2(unsigned tid) { worker(vfg_tree, tid, 2); }
 // per-thread sequential entry points used by the sequential prologue/epilogue
@@ -107,6 +110,14 @@ OB(ring_T2) {
   setup_ring(2);
   ledger();
   vf_sched_ring(2, 44);
+}
+OB(ring_deep_T2) {
+  setup_ring(2);
+  vfg_pool = vf_nondet_u8();
+  vf_assume(vfg_pool <= 1);
+  vfg_budget = vf_nondet_u8();
+  vf_assume(vfg_budget <= 2);
+  vf_sched_ringdeep(2, 84);
 }
 OB(ring_T3) {
   setup_ring(3);
